@@ -1,7 +1,9 @@
 import JaqalProofs.Lemmas.RoundTripTokens
 import JaqalProofs.Lemmas.RoundTripProgram
+import JaqalProofs.Lemmas.RoundTripOrder
 import JaqalProofs.Lemmas.RoundTripLex
 import JaqalProofs.Lemmas.RoundTripGenProgram
+import JaqalProofs.Lemmas.RoundTripBounded
 import JaqalProofs.Props.C02
 import JaqalProofs.Props.C07
 import JaqalProofs.Props.C14
@@ -28,16 +30,19 @@ The round trip is cut into three layers, so that a failure localises:
 For circuits in the range of `parseProgram` (any text, `autoload_pulses=False`):
 * `C01_printable` — PROVED: every such circuit is printable (so (A) applies), has no same-kind nesting
   (`C01_no_same_kind_nesting`) and is well-formed (`C01_wf`, hence `c == c`);
-* `C01_rebuild_canonical` — (C) PROVED, with `c' = c` exactly, for every program whose statements come in the
-  generator's order (usepulses, lets, register, aliases, macros, statements — every generated text is such a program);
-  for other orders (C) is reduced (`C01_rebuild_of_reorder`, PROVED) to `C01_reorder_full`: hoisting lets / the register /
-  aliases / macros into that order does not change what the builder makes — NOT proved;
+* `C01_rebuild` — (C) PROVED for EVERY accepted text, with `c' = c` exactly: `C01_reorder` (the builder makes the
+  same circuit from the statements sorted by section — usepulses, lets, register and aliases, macros, statements —
+  and with at most one fundamental register that is the generator's order) and `C01_rebuild_canonical` (programs in
+  the generator's order; every generated text is such a program);
 * `C01_lex_gen` — (B) PROVED for every printable circuit whose names / floats / ints the lexer can read back
-  (`LexSafe`); that parser-produced circuits are `LexSafe` is `C01_lexsafe_full`, NOT proved (and false in the model for
-  computed 4301-digit slice stops).
-`C01_roundtrip_partial` derives the property from the two remaining statements.  All layer statements are computable;
-the differential harness evaluates them in the model on every generated program (driver op `round_trip_layers`,
-`harness/agents/c01_diff.py`) next to the round trip of the real code.
+  (`LexSafe`); `C01_lexsafe` — PROVED: a parser-produced circuit is `LexSafe` if and only if (`C01_lexsafe_iff`) all
+  the integers the generator writes for it have at most 4300 digits (`IntsBounded`, decidable); names and floats are
+  those of the text.  Without the bound it is false (`C01_lexsafe_full`, `C01_big_stop`): `register r[N]; let m -N;
+  map a r[m:]; map b a[:]` with a 4300-digit `N` is accepted and makes the defaulted stop `2N` of `b` a 4301-digit
+  integer — in the model and in the real code, where `generate_jaqal_program` then raises `ValueError` (`str(int)`).
+**`C01_roundtrip_bounded`** — the property, PROVED for every accepted text whose circuit is `IntsBounded`.
+All layer statements are computable; the differential harness evaluates them in the model on every generated program
+(driver op `round_trip_layers`, `harness/agents/c01_diff.py`) next to the round trip of the real code.
 -/
 namespace Jaqal.C01
 open Jaqal Jaqal.Lexer Jaqal.Parser Jaqal.Grammar Jaqal.Builder Jaqal.Generator Jaqal.PyEq Jaqal.Pipeline Jaqal.RoundTrip
@@ -90,7 +95,9 @@ theorem C01_compose (cfg : Config) (c : Circuit) (hp : printable c = true) (hB :
   rw [htext]
   exact hb
 
-/-- The property for parser-produced circuits. (It used to be refuted by `map b r[0:t:0]`: a literal zero step next
+/-- The property for ALL parser-produced circuits.  FALSE as it stands, in the model and in the real code: an accepted
+program can compute an integer of more than 4300 digits (`C01_big_stop`), which `str(int)` / `int(text)` refuse; the
+true statement is `C01_roundtrip_bounded`.  (It used to be refuted also by `map b r[0:t:0]`: a literal zero step next
 to a let bound was accepted and then not written by `notate_slice`; `Register.__init__` now rejects it before looking
 at the other bounds, see `C01_zero_step_rejected`.) -/
 def C01_roundtrip_full : Prop :=
@@ -220,44 +227,71 @@ theorem C01_rebuild_canonical (cfg : Config) (txt : String) (c : Circuit) (ha : 
     exact ht
   exact ⟨hpb, c, hpb, C20.C20_refl c (C01_wf cfg txt c ha h), rfl⟩
 
-/-- MISSING (`build_reorder`): bringing the statements of an accepted program into the generator's order (a stable
-sort by section: usepulses, lets, register, aliases, macros, statements) does not change the circuit the builder makes.
-Why it holds: a let depends on nothing; the register only on lets; an alias on lets, the register and earlier aliases,
-whose relative order is kept; names are unique (`add_to_context` refuses duplicates), so looking a name up in a larger
-context gives the same value; a macro body and a statement see the same gate definitions in either order because the
-table only grows by fresh names, anonymous definitions are determined by name and arity, and a macro cannot be defined
-after its name was used as a gate.  What makes it long: `nestingCheck` looks macros up with a fuel bound equal to the
-size of the table, so the proof needs the acyclicity of the macro table. -/
+/-- **The builder does not care about the order of the sections** (`Lemmas/RoundTripOrder.lean`).  `canon cs` is
+the stable sort of the children by section — usepulses, lets, register and aliases, macros, statements: a permutation
+(`canon_perm`), sorted (`canon_sorted`), each section in its old order (`canon_filter`).  If `build_circuit` accepts
+the children `cs` it accepts `canon cs` and makes the same circuit; and when the circuit has at most one fundamental
+register (`parse_jaqal_string` refuses more), the `register` statement comes before every `map` statement, so that
+`canon cs` is in the generator's order.
+
+Why it holds (`Lemmas/RoundTripSwap.lean`, `swap_step`): a let depends on nothing; the register only on lets; an alias
+on lets, the register and earlier aliases, whose relative order is kept; names are unique (`add_to_context` refuses
+duplicates), so looking a name up in a larger context gives the same value (`buildAny_transfer`); a macro body and a
+statement see the same gate definitions in either order because the table only grows by fresh names, an anonymous
+definition is determined by the name and the number of arguments of any successful call, and a macro cannot be defined
+after its name was used as a gate; `nestingCheck` follows macro calls with a fuel bound equal to the size of the table,
+which is enough in every table the builder makes because a macro body only calls what was defined before it
+(`Lemmas/RoundTripTable.lean`, `nesting_eq`). -/
 def C01_reorder_full : Prop :=
   ∀ (cfg : Config) (cs : List BSx) (c : Circuit), cfg.autoload = false → (∀ e ∈ cs, GChild e ∧ noBr e = true) →
     buildNoMemo cfg (.list (.str "circuit" :: cs)) = .ok c →
-    buildNoMemo cfg (.list (.str "circuit" :: cs.mergeSort (fun a b => decide (rank a ≤ rank b)))) = .ok c
+    buildNoMemo cfg (.list (.str "circuit" :: canon cs)) = .ok c ∧
+      ((c.registers.filter isFundamental).length ≤ 1 → Canonical (canon cs))
+
+/-- PROVED. -/
+theorem C01_reorder : C01_reorder_full :=
+  fun _ _ _ ha hcs h => ⟨buildNoMemo_reorder ha hcs h, canonical_of_built ha hcs h⟩
+
+/-- Without the bound on the registers the sorted children need not be in the generator's order (and the circuit is
+not a fixed point of generate-and-parse: the generator writes all registers first): `map a r` between two `register`
+statements. -/
+example : ¬ Canonical (canon [.list [.str "register", .str "r", .int 1], .list [.str "map", .str "a", .str "r"],
+    .list [.str "register", .str "s", .int 1]]) := by
+  simp [Canonical, canon, ins, cls, rank]
 
 /-- layer (C) for all parser-produced circuits -/
 def C01_rebuild_full : Prop :=
   ∀ (cfg : Config) (txt : String) (c : Circuit), cfg.autoload = false → parseProgram cfg txt = .ok c → Rebuild cfg c
 
+/-- (C) in general follows from the reordering lemma, with the very same circuit. -/
+theorem C01_rebuild_exact_of_reorder (hR : C01_reorder_full) (cfg : Config) (txt : String) (c : Circuit)
+    (ha : cfg.autoload = false) (h : parseProgram cfg txt = .ok c) : parseBuild cfg (unbuild c) = .ok c := by
+  obtain ⟨sx, cs, hp, he, hcs, hb, _, ht⟩ := parseProgram_inv h
+  obtain ⟨hb', hcan⟩ := hR cfg cs c ha hcs hb
+  have hone : (c.registers.filter isFundamental).length ≤ 1 := by
+    unfold tooManyRegisters at ht
+    split at ht
+    · simp [throw_eq] at ht
+    · omega
+  have hcs' : ∀ e ∈ canon cs, GChild e ∧ noBr e = true := fun e hm => hcs e ((canon_perm cs).mem_iff.1 hm)
+  have hre := (buildNoMemo_rebuild ha hcs' (hcan hone) hb').1
+  unfold parseBuild
+  rw [C07_memo_transparent, hre]
+  exact ht
+
 /-- (C) in general follows from the reordering lemma. -/
 theorem C01_rebuild_of_reorder (hR : C01_reorder_full) : C01_rebuild_full := by
   intro cfg txt c ha h
-  obtain ⟨sx, cs, hp, he, hcs, hb, _, ht⟩ := parseProgram_inv h
-  have hb' := hR cfg cs c ha hcs hb
-  have hperm := List.mergeSort_perm cs (fun a b => decide (rank a ≤ rank b))
-  have hcs' : ∀ e ∈ cs.mergeSort (fun a b => decide (rank a ≤ rank b)), GChild e ∧ noBr e = true :=
-    fun e hm => hcs e (hperm.mem_iff.1 hm)
-  have hsorted : Canonical (cs.mergeSort (fun a b => decide (rank a ≤ rank b))) := by
-    have := List.pairwise_mergeSort (le := fun (a b : BSx) => decide (rank a ≤ rank b))
-      (by intro a b c h1 h2; simp only [decide_eq_true_eq] at *; omega)
-      (by intro a b; simp only [Bool.or_eq_true, decide_eq_true_eq]; omega) cs
-    unfold Canonical
-    rw [List.pairwise_map]
-    exact this.imp (fun h => by simpa using h)
-  have hre := (buildNoMemo_rebuild ha hcs' hsorted hb').1
-  have hpb : parseBuild cfg (unbuild c) = .ok c := by
-    unfold parseBuild
-    rw [C07_memo_transparent, hre]
-    exact ht
-  exact ⟨c, hpb, C20.C20_refl c (C01_wf cfg txt c ha h), rfl⟩
+  exact ⟨c, C01_rebuild_exact_of_reorder hR cfg txt c ha h, C20.C20_refl c (C01_wf cfg txt c ha h), rfl⟩
+
+/-- **Layer C, PROVED for every accepted text** (`autoload_pulses=False`), whatever the order of its statements: the
+tree the generator writes for the circuit is built to exactly that circuit. -/
+theorem C01_rebuild : C01_rebuild_full := C01_rebuild_of_reorder C01_reorder
+
+/-- … in one line: parsing what the generator's tree says gives back the circuit itself. -/
+theorem C01_rebuild_exact (cfg : Config) (txt : String) (c : Circuit) (ha : cfg.autoload = false)
+    (h : parseProgram cfg txt = .ok c) : parseBuild cfg (unbuild c) = .ok c :=
+  C01_rebuild_exact_of_reorder C01_reorder cfg txt c ha h
 
 /-! ### (B) the text layer -/
 
@@ -269,28 +303,123 @@ theorem C01_lex_gen (c : Circuit) (hp : printable c = true) (hs : LexSafe c) : L
   obtain ⟨t, pts, ht, hl, hm⟩ := lex_gen c hp hs
   exact ⟨t, pts, ht, hl, hm⟩
 
-/-- MISSING (`parseProgram_lexSafe`): a parser-produced circuit is `LexSafe`.  For names and floats this is a builder
-invariant that has not been carried through: every name of `c` is the text of an IDENTIFIER token of the program
-(`lexAux_toks_ok` shows those are made of identifier characters) or `a[i]` made of two of them, and every float of `c`
-is the value of a NUMBER token (canonical, not overflowing: `Lexer.step`).  For ints it is FALSE in the model as it
-stands: the stop of a defaulted slice of an alias is computed (`src.size`), and `register r[N]; let m -N; map a r[m:];
-map b a[:]` with 4300-digit `N` makes it a 4301-digit int, which `gen` writes and `lex` refuses.  (The real builder
-fails earlier there, with an uncaught `OverflowError` from `len(range(...))`, for any size beyond `2^63`; so on the real
-code computed sizes stay far below 4300 digits.) -/
+/-- a parser-produced circuit is `LexSafe` — FALSE without a bound on the integers (`C01_big_stop`): the stop of a
+defaulted slice of an alias is computed (`src.size`), and `register r[N]; let m -N; map a r[m:]; map b a[:]` with a
+4300-digit `N` makes it a 4301-digit int, which `gen` writes and `lex` refuses (the real `generate_jaqal_program`
+raises `ValueError` on it: `str(int)` refuses more than 4300 digits). -/
 def C01_lexsafe_full : Prop :=
   ∀ (cfg : Config) (txt : String) (c : Circuit), cfg.autoload = false → parseProgram cfg txt = .ok c → LexSafe c
 
-/-- layer (B) for all parser-produced circuits -/
+/-- **The true version**: a parser-produced circuit all of whose integers — as the generator writes them, the computed
+defaults of slices included — have at most 4300 digits is `LexSafe`.  Names: every name of the circuit is the text of
+an IDENTIFIER token of the program (`parseText_safe`: the lexer's IDENTIFIER tokens are identifiers that are not
+keywords, and the grammar puts them at the name positions of the tree; `buildNoMemo_safe`: the builder invents no
+names).  Floats: every float of the circuit is the value of a NUMBER token, a canonical decimal that does not overflow
+(`Lexer.step`). -/
+theorem C01_lexsafe (cfg : Config) (txt : String) (c : Circuit) (ha : cfg.autoload = false)
+    (h : parseProgram cfg txt = .ok c) (hi : IntsBounded c) : LexSafe c := by
+  obtain ⟨sx, cs, hp, he, hcs, hb, _, _⟩ := parseProgram_inv h
+  obtain ⟨cs', he', hsafe⟩ := parseText_safe hp
+  have : cs' = cs := by rw [he] at he'; cases he'; rfl
+  subst this
+  exact lexSafe_of (buildNoMemo_safe ha (fun e hm => ⟨hsafe e hm, (hcs e hm).2⟩) hb) hi
+
+/-- The bound is exactly what is needed. -/
+theorem C01_lexsafe_iff (cfg : Config) (txt : String) (c : Circuit) (ha : cfg.autoload = false)
+    (h : parseProgram cfg txt = .ok c) : LexSafe c ↔ IntsBounded c :=
+  ⟨intsBounded_of_lexSafe, C01_lexsafe cfg txt c ha h⟩
+
+/-- layer (B) for all parser-produced circuits (false without the bound, like `C01_lexsafe_full`) -/
 def C01_lex_gen_full : Prop :=
   ∀ (cfg : Config) (txt : String) (c : Circuit), cfg.autoload = false → parseProgram cfg txt = .ok c → LexGen c
 
 theorem C01_lex_gen_of_lexsafe (hS : C01_lexsafe_full) : C01_lex_gen_full :=
   fun cfg txt c ha h => C01_lex_gen c (C01_printable cfg txt c ha h) (hS cfg txt c ha h)
 
-/-- The property follows from the two remaining range statements. -/
+/-- **Layer B, PROVED for every accepted text whose circuit is `IntsBounded`.** -/
+theorem C01_lex_gen_bounded (cfg : Config) (txt : String) (c : Circuit) (ha : cfg.autoload = false)
+    (h : parseProgram cfg txt = .ok c) (hi : IntsBounded c) : LexGen c :=
+  C01_lex_gen c (C01_printable cfg txt c ha h) (C01_lexsafe cfg txt c ha h hi)
+
+/-- The property follows from the layer statements (kept for reference; `C01_reorder` is proved, `C01_lex_gen_full` is
+false without the bound). -/
 theorem C01_roundtrip_partial (hB : C01_lex_gen_full) (hR : C01_reorder_full) : C01_roundtrip_full :=
   fun cfg txt c ha h => C01_compose cfg c (C01_printable cfg txt c ha h) (hB cfg txt c ha h)
     (C01_rebuild_of_reorder hR cfg txt c ha h)
+
+/-- **C01, PROVED**: for every text `parse_jaqal_string` accepts (`autoload_pulses=False`, any `inject_pulses`), whatever
+the order of its statements, if every integer the generator writes for the circuit has at most 4300 digits then the
+generated text is accepted, parses to a circuit `==` to the original one (in fact to the very same circuit), and
+generating again reproduces the text byte for byte. -/
+theorem C01_roundtrip_bounded (cfg : Config) (txt : String) (c : Circuit) (ha : cfg.autoload = false)
+    (h : parseProgram cfg txt = .ok c) (hi : IntsBounded c) :
+    ∃ t c', gen c = .ok t ∧ parseProgram cfg t = .ok c' ∧ circuitEq c c' = true ∧ gen c' = .ok t :=
+  C01_compose cfg c (C01_printable cfg txt c ha h) (C01_lex_gen_bounded cfg txt c ha h hi) (C01_rebuild cfg txt c ha h)
+
+/-- The re-parsed circuit is again `IntsBounded`, so the round trip can be iterated. -/
+theorem C01_roundtrip_bounded_again (cfg : Config) (txt : String) (c : Circuit) (ha : cfg.autoload = false)
+    (h : parseProgram cfg txt = .ok c) (hi : IntsBounded c) :
+    ∃ t c', gen c = .ok t ∧ parseProgram cfg t = .ok c' ∧ IntsBounded c' := by
+  obtain ⟨t, ts, hg, hl, hts⟩ := C01_lex_gen_bounded cfg txt c ha h hi
+  have hb := C01_rebuild_exact cfg txt c ha h
+  refine ⟨t, c, hg, ?_, hi⟩
+  have hparse := C01_parse_toks c (C01_printable cfg txt c ha h) ts hts
+  have htext : parseText t = .ok (unbuild c) := by
+    unfold parseText
+    rw [lexAll_of_lex hl]
+    simp only [hparse]
+  unfold parseProgram parseSx
+  rw [htext]
+  exact hb
+
+/-- non-vacuity: a text whose statements are NOT in the generator's order (the register before the let, a statement
+before the macro) is accepted and its circuit is `IntsBounded` … -/
+theorem C01_example_accepted : (match parseProgram {} "register r[2]\nlet n 1\nG r[n]\nmacro m a { G a }\nm r[0]\n" with
+    | .ok c => decide (IntsBounded c)
+    | .error _ => false) = true := by decide +kernel
+
+/-- … so it survives the round trip. -/
+example : ∃ c t c', parseProgram {} "register r[2]\nlet n 1\nG r[n]\nmacro m a { G a }\nm r[0]\n" = .ok c ∧
+    gen c = .ok t ∧ parseProgram {} t = .ok c' ∧ circuitEq c c' = true ∧ gen c' = .ok t := by
+  have h0 := C01_example_accepted
+  cases h : parseProgram {} "register r[2]\nlet n 1\nG r[n]\nmacro m a { G a }\nm r[0]\n" with
+  | error e => rw [h] at h0; cases h0
+  | ok c =>
+    rw [h] at h0
+    obtain ⟨t, c', h1, h2, h3, h4⟩ := C01_roundtrip_bounded {} _ c rfl h (by simpa using h0)
+    exact ⟨c, t, c', rfl, h1, h2, h3, h4⟩
+
+/-! ### the bound cannot be dropped -/
+
+/-- `10^4300 − 1`: 4300 nines -/
+def bigN : Int := 10 ^ 4300 - 1
+
+/-- the tree of `register r[N]; let m -N; map a r[m:]; map b a[:]` for an integer `N` -/
+def bigSx (N : Int) : Sx :=
+  .list [.str "circuit", .list [.str "register", .str "r", .int N], .list [.str "let", .str "m", .int (-N)],
+    .list [.str "map", .str "a", .str "r", .str "m", .none, .none],
+    .list [.str "map", .str "b", .str "a", .none, .none, .none]]
+
+/-- **The hypothesis of `C01_lexsafe` cannot be dropped in the model**: the builder accepts the tree of
+`register r[N]; let m -N; map a r[m:]; map b a[:]` with `N = 10^4300 − 1` (all of whose integers have 4300 digits,
+so the lexer produces it), and the circuit is not `IntsBounded` — the defaulted stop of `b` is the size `2N` of `a`,
+a 4301-digit integer — hence not `LexSafe`: `gen` writes that integer and `lex` refuses it.  (The real code accepts
+the same text, and `generate_jaqal_program` then raises `ValueError`: `str(int)` refuses more than 4300 digits.) -/
+theorem C01_big_stop : ∃ c, parseBuild {} (bigSx bigN) = .ok c ∧ ¬ IntsBounded c ∧ ¬ LexSafe c := by
+  have h0 : (match parseBuild {} (bigSx bigN) with
+      | .ok c => decide (IntsBounded c)
+      | .error _ => true) = false := by decide +kernel
+  cases h : parseBuild {} (bigSx bigN) with
+  | error e => rw [h] at h0; cases h0
+  | ok c =>
+    rw [h] at h0
+    have hn : ¬ IntsBounded c := by simpa using h0
+    exact ⟨c, rfl, hn, fun hs => hn (intsBounded_of_lexSafe hs)⟩
+
+/-- one digit less and the circuit is `IntsBounded` -/
+example : (match parseBuild {} (bigSx (10 ^ 4299 - 1)) with
+    | .ok c => decide (IntsBounded c)
+    | .error _ => false) = true := by decide +kernel
 
 /-- **The round trip, PROVED outright**, for every accepted text whose statements come in the generator's order and
 whose circuit the lexer can read back (`LexSafe`): the generated text is accepted, parses to a circuit `==` to the
@@ -530,6 +659,16 @@ program (op `round_trip_layers`). -/
 #print axioms C01_rebuild_canonical
 #print axioms C01_lex_gen
 #print axioms C01_rebuild_of_reorder
+#print axioms C01_reorder
+#print axioms C01_rebuild
+#print axioms C01_rebuild_exact
+#print axioms C01_lexsafe
+#print axioms C01_lexsafe_iff
+#print axioms C01_lex_gen_bounded
+#print axioms C01_roundtrip_bounded
+#print axioms C01_roundtrip_bounded_again
+#print axioms C01_example_accepted
+#print axioms C01_big_stop
 #print axioms C01_roundtrip_partial
 #print axioms C01_roundtrip_canonical
 #print axioms C01_roundtrip_canonical_partial
